@@ -70,6 +70,32 @@ class N9(PaneBase, in_format=('tuple', 'struct'), out_format='tuple'):
     c: int = 0
 
 
+class N10B(PaneBase, in_format=('tuple',), out_format='tuple'):
+    a: int
+    _: KW_ONLY
+    k: str = 'kay'
+
+
+class N10(N10B):
+    """an inherited keyword-only field precedes a positional field added by the subclass (different types)"""
+    b: int = 0
+    m: str = field(kw_only=True, default='em')
+    c: int = 2
+
+
+class N11(PaneBase, in_rename=('snake', 'camel'), out_rename='scream'):
+    """input and output styles differ; one field has aliases, one does not, one is renamed explicitly (verbatim)"""
+    retry_count: int = field(aliases=('retries',), default=0)
+    item_list: int = 0
+    max_depth: int = field(rename='maxd', default=0)
+
+
+class N12(PaneBase, out_rename='camel'):
+    """only an output style"""
+    retry_count: int = field(aliases=('retries',), default=0)
+    item_list: int = 0
+
+
 class N8(PaneBase, in_format=('struct',), out_format='struct'):
     """struct only: sequences are refused"""
     a: int = 0
@@ -107,9 +133,22 @@ REF = {
          dict(allow_extra=False, in_format=('tuple', 'struct'), out_format='tuple')),
     N8: ((('a', ('a',), 'a', False, True, True, False),),
          dict(allow_extra=False, in_format=('struct',), out_format='struct')),
+    # keyword-only fields come after the positional ones, in declaration order within each group
+    N10: ((('a', ('a',), 'a', True, True, True, False), ('b', ('b',), 'b', False, True, True, False),
+           ('c', ('c',), 'c', False, True, True, False), ('k', ('k',), 'k', False, False, True, False),
+           ('m', ('m',), 'm', False, False, True, False)),
+          dict(allow_extra=False, in_format=('tuple',), out_format='tuple')),
+    N11: ((('retry_count', ('retry_count', 'retryCount', 'retries'), 'RETRY_COUNT', False, True, True, False),
+           ('item_list', ('item_list', 'itemList'), 'ITEM_LIST', False, True, True, False),
+           ('max_depth', ('max_depth', 'maxd'), 'maxd', False, True, True, False)),
+          dict(allow_extra=False, in_format=('struct',), out_format='struct')),
+    N12: ((('retry_count', ('retry_count', 'retries'), 'retryCount', False, True, True, False),
+           ('item_list', ('item_list',), 'itemList', False, True, True, False)),
+          dict(allow_extra=False, in_format=('struct',), out_format='struct')),
 }
 DEFAULT = {N1: {'b': 0}, N2: {'c': 0, 'd': 0, 'e': 0, 'f': 0}, N3: {'baz': 0, 'qux_x': 0, 'r_f': 0}, N4: {'baz': 0}, N5: {'b': 0},
-           N6: {'b': 0, 'c': 'nine', 'd': 1, 'k': 0}, N7: {'b': 0, 'x': 5}, N8: {'a': 0}, N9: {'b': [], 'c': 0}}
+           N6: {'b': 0, 'c': 'nine', 'd': 1, 'k': 0}, N10: {'b': 0, 'c': 2, 'k': 'kay', 'm': 'em'},
+           N11: {'retry_count': 0, 'item_list': 0, 'max_depth': 0}, N12: {'retry_count': 0, 'item_list': 0}, N7: {'b': 0, 'x': 5}, N8: {'a': 0}, N9: {'b': [], 'c': 0}}
 # key vocabulary per class: every name the class can distinguish in some style + foreign keys
 VOCAB = {
     N1: ('a', 'b', 'A', 'zz'),
@@ -121,6 +160,9 @@ VOCAB = {
     N7: ('a', 'b', 'x', 'zz'),
     N8: ('a', 'zz'),
     N9: ('a', 'b', 'c'),
+    N10: ('a', 'b', 'c', 'k', 'm'),
+    N11: ('retry_count', 'retryCount', 'RETRY_COUNT', 'retries', 'item_list', 'itemList', 'ITEM_LIST', 'max_depth', 'maxd', 'md', 'maxDepth', 'MAXD', 'zz'),
+    N12: ('retry_count', 'retryCount', 'retries', 'item_list', 'itemList', 'zz'),
 }
 for _c in REF:
     make_converter(_c)
@@ -268,7 +310,7 @@ def body_map_{name}(nk: int, y1: int, y2: int, y3: int, i1: int, i2: int, i3: in
         d[k3] = i3
     return check_mapping({name}, d)
 '''
-for _c in (N1, N2, N3, N4, N5, N7, N8):
+for _c in (N1, N2, N3, N4, N5, N7, N8, N11, N12):
     _nv = len(VOCAB[_c]) - 1
     exec(_MAP.format(name=_c.__name__, nv=_nv, nv3=min(_nv, 3)))
 
@@ -309,8 +351,8 @@ def body_seq_{name}(n: int, ck: int, i1: int, i2: int, i3: int, i4: int, i5: int
         return -99 if 'struct' in REF[{name}][1]['in_format'] else check_sequence({name}, v, n, False)
     return check_sequence({name}, v, n, real)
 '''
-for _c in (N6, N7, N1, N8):
-    exec(_SEQ.format(name=_c.__name__, maxn=5 if _c is N6 else 4, wit=(0, -1) if _c in (N6, N7) else (-1,)))
+for _c in (N6, N7, N1, N8, N10):
+    exec(_SEQ.format(name=_c.__name__, maxn=5 if _c is N6 else 4, wit=(0, -1) if _c in (N6, N7, N10) else (-1,)))
 
 
 @obligation(pre="0 <= n <= 4 and 0 <= ck <= 1", witnesses=(0, -1), timeout=120)
